@@ -1041,6 +1041,53 @@ def dimension_formula(ctx):
     return dimfn, scalar_of(res, "dimension")
 
 
+def run_c06d(ctx):
+    ctx.rule("C06-d", "the scan adds p_e = J[g∖e]/(J[g]·ω[g∖e]) to its running sum for the edges e of g, with both table indices as stated, "
+                      "and the pair returned in the loop is (e, g∖e)")
+    from .c06 import find_scan
+    try:
+        sector, scan_site = find_scan(ctx, ctx.roles)
+    except RoleLost as e:
+        return ctx.lost("C06-d", str(e))
+    scan = scan_site[2]
+    f = ctx.facts
+
+    def body():
+        I = Interp(f)
+        args = []
+        for l in scan.locals[1:scan.arg_count + 1]:
+            ty = l["ty"]
+            if "TropicalSubgraphTable" in ty:
+                args.append(world.table())
+            elif "TropicalSubGraphId" in ty:
+                args.append(world.GraphIdVal("g"))
+            else:
+                args.append(Num(Expr.symbol("uniform")))
+        try:
+            I.run_fn(scan.path, args)
+        except Undecided:
+            pass
+        adds = [(var, val, conds) for (var, path, op, val, conds) in I.write_log if op == "+" and not path and isinstance(val, Num)]
+        if len(adds) != 1:
+            raise Undecided("the scan does not add to exactly one running sum (%d additive updates)" % len(adds))
+        got = adds[0][1].expr.simplified()
+        names = set()
+        got.has_atom(lambda a: names.add(a[2]) if a[0] == "call" and a[1] == "J" and isinstance(a[2], str) and a[2].startswith("pop(") else False)
+        if len(names) != 1:
+            raise Undecided("p_e does not mention J of exactly one reduced graph (%s)" % sorted(names))
+        gk = sorted(names)[0]
+        ok_key = gk.startswith("pop(g,«") and gk.endswith("»)")
+        want = Expr.atom(("call", "J", gk)) * Expr.atom(("call", "J", "g")).inv() * Expr.atom(("call", "omega", gk)).inv()
+        ctx.ob("C06-d", "p_e == J[g∖e]·J[g]⁻¹·ω[g∖e]⁻¹ with e an edge of g", ok_key and got == want, scan.path, "edge-probability",
+               detail="running sum += %s (expected %s)" % (got.key()[:300], want.key()[:300]))
+        e_name = gk[len("pop(g,«"):-2]
+        rets = [v_ for c_, v_ in I.early_returns if isinstance(v_, Tup) and len(v_.items) == 2]
+        ok_ret = any(isinstance(r_.items[0], Num) and r_.items[0].ent == e_name and isinstance(r_.items[1], world.GraphIdVal) and r_.items[1].key_ == gk for r_ in rets)
+        ctx.ob("C06-d", "the in-loop return is (e, g∖e) for the same e", ok_ret, scan.path, "edge-probability-return",
+               detail="returns %s" % [(getattr(r_.items[0], "ent", None), getattr(r_.items[1], "key_", None)) for r_ in rets])
+    guarded_clause(ctx, "C06-d", scan.path, "edge-probability", body)
+
+
 def run_c14h(ctx):
     """Bit-level definitions of the subgraph id: together they make the sector loop run exactly E times."""
     ctx.rule("C14-h", "subgraph id as a bit mask: full = (1<<E)−1 with E = number of edges; is_empty ⇔ id = 0; has_one_edge ⇔ popcount(id) = 1; contains_edges = "
